@@ -10,6 +10,7 @@
 #include <memory>
 #include <optional>
 #include <ostream>
+#include <set>
 #include <string>
 #include <stack>
 #include <vector>
@@ -182,6 +183,11 @@ struct UnknownSymbolError : public Error {
 struct NonConstArrayLengthError : public Error {
   NonConstArrayLengthError(Location location, std::string name) :
     Error(location, (boost::format("array %s length is not constant") % name).str()) {}
+};
+
+struct NonConstValError : public Error {
+  NonConstValError(Location location, std::string name) :
+    Error(location, (boost::format("val %s is not constant") % name).str()) {}
 };
 
 struct InvalidSyscallError : public Error {
@@ -787,9 +793,10 @@ public:
 class ValDecl : public Decl {
   std::unique_ptr<Expr> expr;
   int exprValue;
+  bool valueKnown;
 public:
   ValDecl(Location location, std::string name, std::unique_ptr<Expr> expr) :
-      Decl(location, name), expr(std::move(expr)) {}
+      Decl(location, name), expr(std::move(expr)), exprValue(0), valueKnown(false) {}
   virtual void accept(AstVisitor *visitor) override {
     visitor->visitPre(*this);
     expr->accept(visitor);
@@ -798,7 +805,8 @@ public:
   }
   Expr *getExpr() const { return expr.get(); }
   int getValue() const { return exprValue; }
-  void setValue(int value) { exprValue = value; }
+  bool hasValue() const { return valueKnown; }
+  void setValue(int value) { exprValue = value; valueKnown = true; }
 };
 
 class VarDecl : public Decl {
@@ -1810,13 +1818,41 @@ public:
 
 class ConstProp : public AstVisitor {
   SymbolTable &symbolTable;
+  // The formals and local declarations of the current procedure seen so far.
+  std::set<std::string> declaredLocals;
+  /// Return the val declaration, with its value known, that a name denotes at
+  /// the current point of the walk, or null. A local that is declared later
+  /// (or is the val being defined) is not in scope yet, so it does not hide a
+  /// global of the same name.
+  const ValDecl *lookupVal(const std::string &name, const Location &location) {
+    auto symbol = symbolTable.lookup(std::make_pair(getCurrentScope(), name), location);
+    if (!symbol->getScope().empty() && declaredLocals.count(name) == 0) {
+      symbol = symbolTable.lookup(std::make_pair(std::string(), name), location);
+    }
+    auto valDecl = dynamic_cast<const ValDecl*>(symbol->getNode());
+    return (valDecl && valDecl->hasValue()) ? valDecl : nullptr;
+  }
+  void declareLocal(const std::string &name) {
+    if (!getCurrentScope().empty()) {
+      declaredLocals.insert(name);
+    }
+  }
 public:
   ConstProp(SymbolTable &symbolTable) :
     AstVisitor(true, true, true), symbolTable(symbolTable) {}
+  void visitPre(Proc&) { declaredLocals.clear(); }
+  void visitPost(ValFormal &formal) { declareLocal(formal.getName()); }
+  void visitPost(ArrayFormal &formal) { declareLocal(formal.getName()); }
+  void visitPost(ProcFormal &formal) { declareLocal(formal.getName()); }
+  void visitPost(FuncFormal &formal) { declareLocal(formal.getName()); }
+  void visitPost(VarDecl &decl) { declareLocal(decl.getName()); }
   void visitPost(ValDecl &decl) {
-    if (decl.getExpr()->isConst()) {
-      decl.setValue(decl.getExpr()->getValue());
+    if (!decl.getExpr()->isConst()) {
+      // Only constant values are propagated; anything else has no value here.
+      throw NonConstValError(decl.getLocation(), decl.getName());
     }
+    decl.setValue(decl.getExpr()->getValue());
+    declareLocal(decl.getName());
   }
   void visitPost(BinaryOpExpr &expr) {
     auto &LHS = expr.getLHS();
@@ -1866,9 +1902,7 @@ public:
   void visitPost(CallExpr &expr) {
     // Propagate constant values for syscalls.
     if (!expr.isSysCall()) {
-      auto symbol = symbolTable.lookup(std::make_pair(getCurrentScope(), expr.getName()),
-                                       expr.getLocation());
-      if (auto symbolExpr = dynamic_cast<const ValDecl*>(symbol->getNode())) {
+      if (auto symbolExpr = lookupVal(expr.getName(), expr.getLocation())) {
         expr.setSysCallId(symbolExpr->getValue());
       } else {
         return;
@@ -1883,9 +1917,7 @@ public:
   void visitPost(ArraySubscriptExpr &expr) {}
   void visitPost(VarRefExpr &expr) {
     // Propagate constant values to variable references.
-    auto symbol = symbolTable.lookup(std::make_pair(getCurrentScope(), expr.getName()),
-                                     expr.getLocation());
-    if (auto symbolExpr = dynamic_cast<const ValDecl*>(symbol->getNode())) {
+    if (auto symbolExpr = lookupVal(expr.getName(), expr.getLocation())) {
       expr.setValue(symbolExpr->getValue());
     }
   }
